@@ -13,6 +13,7 @@ mod forms;
 mod gen;
 mod machine;
 mod mes;
+mod replay;
 mod rng;
 mod runloop;
 mod stepped;
@@ -31,6 +32,9 @@ impl Args {
     }
     pub fn req(&self, k: &str) -> Result<&str> {
         self.get(k).ok_or_else(|| anyhow!("missing --{}", k))
+    }
+    pub fn from_pairs(p: &[(&str, &str)]) -> Args {
+        Args { cmd: String::new(), kv: p.iter().map(|(k, v)| (k.to_string(), v.to_string())).collect() }
     }
     pub fn num(&self, k: &str, d: u64) -> u64 {
         self.get(k).and_then(|s| s.parse().ok()).unwrap_or(d)
@@ -64,7 +68,7 @@ fn main() {
     machine::install_quiet_panic_hook();
     let r = match args.cmd.as_str() {
         "step-cases" => cases::run_step_cases(&args),
-        "replay" => cases::run_replay(&args),
+        "replay" => if args.get("out").map(|o| o.ends_with(".ndjson")).unwrap_or(false) { cases::run_replay(&args) } else { replay::run_replay_any(&args) },
         "decode-sweep" => sweep::run_sweep(&args, false),
         "panic-sweep" => sweep::run_sweep(&args, true),
         "mes-cases" => mes::run_mes(&args),
